@@ -25,7 +25,7 @@ CHECKS = ("blotter",)
 
 
 def sub_machine(col, budget, seed, tier, shard, nshards):
-    M.run(col, SimWorld, CHECKS, M.base_cfg(limits="none", handicaps=True, market_limit=True), budget, 30 if tier == "quick" else 60, seed, tier, "blotter", rule_weights={"resubmit": 2, "reopen": 3})
+    M.run(col, SimWorld, CHECKS, M.base_cfg(limits="none", handicaps=True, market_limit=True), budget, 30 if tier == "quick" else 60, seed, tier, "blotter", rule_weights={"resubmit": 2, "reopen": 3, "replace_through": 1})
 
 
 # ---- live mode: blotter coherence after every step of a generated live schedule (adoptions, replacements) ----
